@@ -154,6 +154,11 @@ func checkSplit(c *h.Ctx, k *c09Case) {
 		return
 	}
 	doc := h.Decode(k.doc, k.useNum)
+	if (len(k.doc)+k.split)%3 == 0 {
+		// arrays cut out of one backing array, with spare capacity: a step
+		// that appends to a slice of the document changes what later steps see
+		doc = h.SpareCap(doc)
+	}
 	opts := h.Opts{Vars: h.DecodeVars(k.vars, k.useNum), TZ: k.tz}
 	hook := func(o *h.Out) {
 		if len(o.Faults) > 0 {
